@@ -191,7 +191,13 @@ class World(object):
         """Resolve an integer reference to a live, not-in-flight slot index.  The reference
         counts over all candidates; if the slot it lands on does not satisfy `pred`, it is
         re-resolved over the candidates that do (so shrunk programs stay meaningful)."""
-        cand = self.live(self.inflight())
+        busy = self.inflight()
+        cand = self.live(busy)
+        if busy:
+            # inside a callback: objects whose result registers lead to an in-flight (half
+            # written) object are off limits too, the library would deep-copy that object
+            bo = [self.slots[i].obj for i in busy]
+            cand = [i for i in cand if not any(self.reg_reaches(self.slots[i].obj, b) for b in bo)]
         if not cand:
             raise Skip('no slot')
         c = cand[r % len(cand)]
@@ -245,7 +251,7 @@ class World(object):
 
     def reg_reaches(self, a, b, depth=0):
         """True iff object b is reachable from a through result-register fields (or a is b)."""
-        if a is b:
+        if a is b or getattr(a, 'config', None) is getattr(b, 'config', 0):
             return True
         if depth > 6:
             return True
